@@ -3,7 +3,7 @@ CodeBuilder API for 1..3 phases, generated with definite-assignment and type
 tracking so that the written program is well defined (DESIGN.md §3.4)."""
 import numpy as np
 
-from simdag.gen.expr import (Attr, Bin, Call, Cmp, Const, IfX, Logic, Not, Pow, Sub, Var,
+from simdag.gen.expr import (Attr, Bin, Call, Lst, Cmp, Const, IfX, Logic, Not, Pow, Sub, Var,
                              expr_vars, has_call, render, text)
 
 TEMP_POOL = ["x", "y", "z", "w", "u", "v", "temp", "temp_0", "temp_1", "local_x",
@@ -37,6 +37,7 @@ FUNCS = {
     "<func>noop": ("num->", lambda x: None),
     "<func>pairlist": ("num->num,num", lambda x: [x + 1, x - 1]),      # two results as a list, not a tuple
     "<func>tup": ("num->tup", lambda x: (x + 1, x - 1)),               # one result that is itself a tuple
+    "<func>lsum": ("list,w=->num", lambda xs, w=(1, 1): w[0] * xs[0] - 2 * w[1] * xs[1]),   # container arguments
     "<func>h": ("arr->arr", lambda a: 2 * np.asarray(a)),
     "<func>rev": ("arr->arr", lambda a: np.asarray(a)[::-1].copy()),
     "<func>total": ("arr->num", lambda a: float(np.asarray(a).sum())),
@@ -690,7 +691,17 @@ class ScriptGen:
             return ("assign", s, None, body, loops, self.mode())
         if k == 4:
             kind = t.weighted([2, 2 if F.multi_assign else 0, 1, 1 if F.builtins and self.arrs(D) else 0,
-                               0.7 if F.multi_assign else 0], "callkind")
+                               0.7 if F.multi_assign else 0, 0.7 if F.kwargs else 0], "callkind")
+            if kind == 5:
+                # a list (and a tuple, by keyword) of expressions as arguments of a call statement
+                tgt = self.new_temp(D, "float")
+                if tgt is None:
+                    return None
+                a, b_ = self.g_num(D, 0), self.g_num(D, 0)
+                kws = [("w", Lst([self.g_num(D, 0), self.g_num(D, 0)], as_tuple=True))] if t.chance(0.5, "lkw") else []
+                D.add(tgt)
+                # (tuples: pymbolic deprecates lists inside expression graphs)
+                return ("call", (tgt,), self.ucall("<func>lsum", [Lst([a, b_], as_tuple=True)], kws), "o")
             if kind == 4:
                 # one variable bound to a result that is itself a tuple, handed on as it is
                 tv = self.new_temp(D, "tup", pool=["pr", "tup", "res"], allow_existing=False)
